@@ -1090,6 +1090,9 @@ func c19GenTree(rng *rand.Rand) string {
 			r.unix = 1700000000 + rng.Int64N(1000)
 		}
 		n := pick(rng, 0, 1, 3, 4, 5, 6, 7, 8, 8, 9, 12, rng.IntN(14))
+		if rng.IntN(40) == 0 {
+			n = pick(rng, 31, 32, 33, 64, 65) // many attributes on one record (inline storage, pooled slices)
+		}
 		r.chunks = c19Chunk(rng, c19GenIDs(rng, c, n))
 		c.recs = append(c.recs, r)
 	}
